@@ -793,6 +793,54 @@ fn exhaustive_space(tier: Tier) -> Vec<Scenario> {
     out
 }
 
+/// Clamp a structurally decoded scenario into the generator's domain (fuzz tier).
+pub fn fuzz_sanitize(sc: &mut Scenario) -> bool {
+    sc.nhosts = 2 + sc.nhosts % 3;
+    sc.tick_ms = 1 + sc.tick_ms % 4;
+    sc.lat_min %= 7;
+    sc.lat_max = sc.lat_min + sc.lat_max % 13;
+    sc.traffic_steps = 8 + sc.traffic_steps % 17;
+    sc.probes.truncate(4);
+    for p in sc.probes.iter_mut() {
+        p.0 %= 24;
+        p.1 %= 4;
+        p.2 %= 4;
+    }
+    let fix_sel = |s: &mut Sel| match s {
+        Sel::Name(i) | Sel::Ip(i) => *i %= 4,
+        Sel::Regex(v) => {
+            v.truncate(3);
+            for i in v.iter_mut() {
+                *i %= 4;
+            }
+            if v.is_empty() {
+                v.push(0);
+            }
+        }
+    };
+    for c in sc.ctl.iter_mut() {
+        c.step %= 24;
+        c.by = c.by.map(|h| h % 4);
+        fix_sel(&mut c.a);
+        fix_sel(&mut c.b);
+    }
+    for m in sc.manual.iter_mut() {
+        m.0 %= 24;
+    }
+    sc.manual.truncate(4);
+    if let Some(v) = sc.sends.as_mut() {
+        for x in v.iter_mut() {
+            x.0 %= 24;
+            x.1 %= 4;
+            x.2 %= 4;
+        }
+    }
+    sc.ctl.retain(|c| matches!(c.kind, Kind::Hold | Kind::Release));
+    sc.ctl.truncate(7);
+    sc.ctl.sort_by_key(|c| c.step);
+    !sc.ctl.is_empty()
+}
+
 fn check(tier: Tier, seed: u64) -> i32 {
     let ctx = Ctx::new("C08", tier, seed, "fault_enumeration");
     ctx.replay_corpus(&replay);
